@@ -74,6 +74,11 @@ def plan(tier: str, rnd: random.Random, logs: dict) -> list[dict]:
         rows = X.role_swapped(rnd, list(logs[name]), 2 if quick else 4, 1)
         out.insert(n, {"log": name, "ops": ["role-swapped"], "eav": n % 2, "k": max(50, len(rows) // 4), "rows": rows,
                        "nodisc": 1})
+    # foreign kit: valid traffic of devices that are not this system's (HVAC, another controller, neighbours)
+    for n, name in enumerate(picks[: (2 if quick else 6)]):
+        rows = X.foreign_kit(rnd, list(logs[name])[-120:], 3 if quick else 5)
+        out.insert(n, {"log": name, "ops": ["foreign-kit"], "eav": (n + 1) % 2, "k": max(200, len(rows) // 3),
+                       "rows": rows, "nodisc": 1})
     return out
 
 
